@@ -34,7 +34,7 @@ def floors(tier):
 
 def plan(tier, seed):
     if tier == "quick":
-        n, per = 16, 450
+        n, per = 16, 900
     else:
         n, per = 64, 15000
     return [{"seed": seed, "shard": i, "per": per, "tier": tier} for i in range(n)]
